@@ -760,7 +760,7 @@ func ruleKey5(c *Ctx) {
 				}
 				for _, r := range *sv.Referrers() {
 					switch x := r.(type) {
-					case *ssa.Store, *ssa.MapUpdate, *ssa.Lookup, *ssa.Phi, *ssa.DebugRef, *ssa.MakeInterface:
+					case *ssa.Store, *ssa.MapUpdate, *ssa.Lookup, *ssa.Phi, *ssa.DebugRef, *ssa.MakeInterface, *ssa.Return: // a returned key is still the whole key
 					case *ssa.BinOp:
 						if x.Op != token.EQL && x.Op != token.NEQ {
 							bad = fmt.Sprintf("the key is transformed (%s) at %s", x.Op, c.Pos(x))
